@@ -75,7 +75,7 @@ func tdposBox(tier core.Tier) []tdCfg {
 	inits := []int64{7, 0}
 	terms := int64(3)
 	if tier == core.Thorough {
-		periods = []int64{1, 2, 3, 5, 8, 13, 30}
+		periods = []int64{1, 2, 3, 5, 8, 13}
 		blockNums = []int64{1, 2, 3, 4}
 		props = []int64{1, 2, 3, 4, 5}
 		inits = []int64{7, 0, 1559021720000}
@@ -138,9 +138,15 @@ func (s slot) String() string { return fmt.Sprintf("(term %d, pos %d, slot %d)",
 type tdPoint struct {
 	Kind      string `json:"kind"` // structure | acceptance
 	Mode      string `json:"mode,omitempty"`
-	TMs       int64  `json:"t_ms"`           // structure: the millisecond
-	TNs       int64  `json:"t_ns,omitempty"` // acceptance: the block's timestamp
+	TMs       int64  `json:"t_ms"` // structure: the millisecond
+	TNs       int64  `json:"t_ns"` // acceptance: the block's timestamp
 	Candidate string `json:"candidate,omitempty"`
+}
+
+// dkey is one distinct (cell kind, candidate class, outcome) combination.
+type dkey struct {
+	kind, class string
+	acc         bool
 }
 
 // instant is one block timestamp with what the schedule says there.
@@ -285,6 +291,8 @@ func tdposUnit(c tdCfg, only *tdPoint) *outcome {
 		}
 		resolvable := mode == modeYoung || mode == modeGrown
 		blk := &lpb.InternalBlock{Version: 1, Height: height, Blockid: []byte("candidate"), PreHash: l.chain[len(l.chain)-1].Blockid, CurTerm: 1}
+		nAcc, nRej := 0, 0
+		seen := map[dkey]bool{}
 		for _, in := range instants {
 			if only != nil && only.TNs != in.ns {
 				continue
@@ -309,7 +317,6 @@ func tdposUnit(c tdCfg, only *tdPoint) *outcome {
 				blk.Timestamp = in.ns
 				blk.Proposer = []byte(addr)
 				got, pan := accept(pc, blk)
-				o.counts["acceptance_calls"]++
 				pt := tdPoint{Kind: "acceptance", Mode: mode, TNs: in.ns, Candidate: cn}
 				if pan != "" {
 					key := "c16.tdpos.check_panic"
@@ -330,15 +337,13 @@ func tdposUnit(c tdCfg, only *tdPoint) *outcome {
 				case cn == candEmpty:
 					class = "empty"
 				}
-				res := "rej"
 				if got {
-					res = "acc"
 					accepted++
-					o.counts["accepted."+mode]++
+					nAcc++
 				} else {
-					o.counts["rejected."+mode]++
+					nRej++
 				}
-				o.distinct[fmt.Sprintf("tdpos|%s|%s|%s|b%d|n%d|%s", mode, kind, class, c.BlockNum, c.Proposers, res)] = true
+				seen[dkey{kind, class, got}] = true
 				if got && !entitled {
 					key := "c16.tdpos.accepts_non_entitled"
 					want := "rejected: nobody is entitled"
@@ -366,6 +371,12 @@ func tdposUnit(c tdCfg, only *tdPoint) *outcome {
 			if accepted > 1 {
 				o.bad("c16.tdpos.two_producers", fmt.Sprintf("TDPoS %+v, %s ledger: %d different proposers accepted at t=%s", c, mode, accepted, fmtNs(in.ns)), caseOf(tdPoint{Kind: "acceptance", Mode: mode, TNs: in.ns}), "at most one", fmt.Sprint(accepted))
 			}
+		}
+		o.counts["acceptance_calls"] += nAcc + nRej
+		o.counts["accepted."+mode] += nAcc
+		o.counts["rejected."+mode] += nRej
+		for k := range seen {
+			o.distinct[fmt.Sprintf("tdpos|%s|%s|%s|b%d|n%d|%v", mode, k.kind, k.class, c.BlockNum, c.Proposers, k.acc)] = true
 		}
 	}
 	if only == nil {
